@@ -41,13 +41,29 @@ class _World:
         self.log = wrap(self.log * 10 + k)
 
 
+class _Src:
+    """a stateful source: every pull is counted, also the ones after exhaustion"""
+    def __init__(self, w, xs, counted):
+        self.w, self.xs, self.k, self.counted = w, list(xs), 0, counted
+
+    def pull(self):
+        if self.counted:
+            self.w.pulls += 1
+        if self.k < len(self.xs):
+            self.k += 1
+            return True, self.xs[self.k - 1]
+        return False, None
+
+    def gen(self):
+        while True:
+            ok, x = self.pull()
+            if not ok:
+                return
+            yield x
+
+
 def _source(w, xs, counted):
-    for x in xs:
-        if counted:
-            w.pulls += 1
-        yield x
-    if counted:
-        w.pulls += 1      # the pull that returns (false, _)
+    return _Src(w, xs, counted).gen()
 
 
 def _stage(w, it, st):
@@ -65,10 +81,11 @@ def _stage(w, it, st):
                 yield x
 
 
-def _sim(xs, stages, term, counted, w=None):
-    """-> (value, pulls, log) by the sequence definitions; `w` carries the pull counter and the log of an earlier run"""
+def _sim(xs, stages, term, counted, w=None, src=None):
+    """-> (value, pulls, log) by the sequence definitions; `w` carries the pull counter and the log of an earlier run,
+    `src` a source that an earlier run may have consumed in part"""
     w = w or _World()
-    it = _source(w, xs, counted)
+    it = src.gen() if src is not None else _source(w, xs, counted)
     for st in stages:
         it = _stage(w, it, st)
     kind = term[0]
@@ -202,6 +219,16 @@ def _cases_for(cid, xs, stages, term):
     out.append(Case(f"it/{cid}/gen/twice", PRELUDE + f"run := (a: [int], n: int) -> any {{ {body_t} return r }}; "
                     f"r1 := run({_lit(xs) if xs else '[0]'}, {len(xs)}); r2 := run({_lit(xs2)}, {len(xs2)}); (r1, r2, *pulls, *log)",
                     (v1, v2, pulls2, log2), what="the same pipeline run twice over different sources"))
+    # (a'') the pipeline sits in a closure that CAPTURES the (stateful) iterator: creating the closure pulls nothing, the first call
+    # consumes the source, the second call finds it exhausted (one more pull, which says so)
+    w = _World()
+    shared = _Src(w, xs, True)
+    c1, _p, _l = _sim(xs, stages, term, True, w, shared)
+    c2, cp, cl = _sim(xs, stages, term, True, w, shared)     # continues where the first call stopped
+    body_c = _pipe_text("it", stages, term)
+    out.append(Case(f"it/{cid}/gen/captured", PRELUDE + f"it := {src}; run := () -> any {{ {body_c} return r }}; p0 := (*pulls, *log); "
+                    f"r1 := run(); r2 := run(); (p0, r1, r2, *pulls, *log)", ((0, 0), c1, c2, cp, cl),
+                    what="the pipeline in a closure capturing a stateful iterator: nothing is pulled when the closure is created"))
     # (b) array~ source (no pull counter): literal array, and elements hidden behind function parameters
     v2, _p, log2 = _sim(xs, stages, term, False)
     if xs:
@@ -310,6 +337,18 @@ for _t, _v in [("it $]", [1, 2]), ("it $+", 3), ("it $0 (a: int, b: int) -> int 
     SCOPED.append((DECL + f"r := {_t}; " + _AFTER, (_v,) + _KEPT))
     SCOPED.append(("main := () -> any { " + DECL + f"r := {_t}; return " + _AFTER + " }; main()", (_v,) + _KEPT))
 SCOPED.append((DECL + "s := mut 0; for v in it { s += v } r := *s; " + _AFTER, (3,) + _KEPT))
+
+
+# a source that can be REFILLED (its index cell is reset): an adapter or a consumer that remembers "exhausted" is wrong
+REFILL = ("i := mut 0; it := () -> (bool, int) { k := *i; if k < 3 { i += 1; return (true, k + 1) } return (false, 0) }; "
+          "dbl := (x: int) -> int { return x * 2 }; big := (x: int) -> bool { return x > 1 }; add := (a: int, b: int) -> int { return a + b }; ")
+for _t, _v in [("it $]", [1, 2, 3]), ("it @ dbl $]", [2, 4, 6]), ("it ? big $]", [2, 3]), ("it ? int $]", [1, 2, 3]), ("it $+", 6), ("it $*", 6),
+               ("it $0 add", 6), ("it \\ big", ([2, 3], [1])), ("it @ dbl ? big $+", 12), ("it @ big $&&", False), ("it @ big $||", True)]:
+    SCOPED.append((REFILL + f"run := () -> any {{ return {_t} }}; a := run(); i = 0; b := run(); i = 0; c := run(); (a, b, c)", (_v, _v, _v)))
+    SCOPED.append((REFILL + f"a := {_t}; i = 0; b := {_t}; (a, b)", (_v, _v)))
+SCOPED.append((REFILL + "m := it @ dbl; a := m $]; i = 0; b := m $]; (a, b)", ([2, 4, 6], [2, 4, 6])))
+SCOPED.append((REFILL + "m := it ? big; a := m $]; i = 0; b := m $]; (a, b)", ([2, 3], [2, 3])))
+SCOPED.append((REFILL + "m := it ? int; a := m $]; i = 0; b := m $]; (a, b)", ([1, 2, 3], [1, 2, 3])))
 
 
 def fam_iter(tier, seed, extra=()):
